@@ -150,7 +150,11 @@ def run_case(case, built=None, keep_obs=False):
     if obs.verdict:
         # a hang where the statement of a construct demands an error result also refutes that construct's property
         extra = set()
+        if 'case_shared' in (prog.get('tags') or []):
+            extra.add('C09')        # "a selected case already computed for another consumer is reused"
         for r in refs.values():
+            if r.outcome[0] == 'value':
+                extra.add('C01')    # the run has to yield the reference value under every schedule
             if r.outcome[0] != 'value':
                 for cse in r.outcome[1]:
                     extra |= {'badlabel': {'C09'}, 'oneof': {'C10'}, 'rec': {'C11'}}.get(cse[0], set())
